@@ -23,7 +23,7 @@ ASSUMPTIONS = [
     "files without any germline-heterozygous record are out of domain for load_het_snps (heterozygous() documents that it then returns everything), as is the all-0/0-normal work-around",
     "for one SNV in a range either side of 0.5 is accepted; for a median exactly at 0.5 either direction; otherwise the majority side (docstring)",
 ]
-BUDGET_S = {"quick": 200, "thorough": 1200}
+BUDGET_S = {"quick": 600, "thorough": 2400}
 
 
 def setup(run):
